@@ -3,6 +3,8 @@ query: which lexemes produce which tokens, where blank space is skipped, what is
 
 from __future__ import annotations
 
+import ast
+
 from typing import Any
 from typing import Dict
 from typing import List
@@ -38,6 +40,7 @@ class Step:
         self.next_state: Optional[str] = None
         self.raised: Optional[str] = None
         self.consumed: Any = None
+        self.progress: Optional[bool] = None  # the path condition entails that pos grew by at least one character
         self.filter_depth_delta: Any = None
         self.stack_ops: List[str] = []
         self.skipped_blank = False
@@ -178,6 +181,7 @@ def lexer_iteration(model: Model, state: str, filter_depth: int = 0, in_function
         if isinstance(newpos, IntV):
             d = newpos.lin - p.lin
             s.consumed = d.const if d.is_const() else d.show(ctx.names)
+            s.progress = bool(ctx.oct.entails_le0(p.lin - newpos.lin + Lin.k(1)))
         elif isinstance(newpos, Const):
             s.consumed = f"={newpos.value}"
         fd = lx.attrs.get("filter_depth")
@@ -598,3 +602,140 @@ def check_function_dispatch(model: Model, report: Any, rule: str) -> None:
     why = f" (the earlier test for {culprits[0]!r} takes the text first)" if culprits else ""
     name = w.split("(")[0]
     report.fail(rule, site, f"{cell}:refused:{'keyword-prefix' if culprits else 'other'}", f"function name '{name}' followed by '(' does not reach the arm that emits FUNCTION{why}: a call of a registered function with such a name is refused although RFC 9535 allows the name", what=cell)
+
+
+# ------------------------------------------------------------------ progress (termination of the scan)
+PROGRESS_CONFIGS = (
+    ("top-level", dict()),
+    ("in-filter", dict(filter_depth=1, bracket_top="[")),
+    ("in-call", dict(filter_depth=1, bracket_top="(", in_function=1)),
+)
+
+
+def lexer_state_names(model: Model) -> List[str]:
+    """Every state function of the lexer: module-level functions taking the lexer and returning a state, and the
+    module-level names bound to closures of a state factory; found from the return annotations / call shapes,
+    closed under 'is returned by a state' while the steps are computed."""
+    lexmod = model.module("lex")
+    names = []
+    for n, fi in lexmod.functions.items():
+        a = fi.node.args.args
+        if len(a) == 1 and fi.node.returns is not None and "StateFn" in ast.unparse(fi.node.returns) and not any(isinstance(x, ast.FunctionDef) for x in ast.walk(fi.node) if x is not fi.node):
+            names.append(n)
+    for alias, expr in lexmod.assigns.items():
+        if isinstance(expr, ast.Call) and isinstance(expr.func, ast.Name) and expr.func.id in lexmod.functions:
+            f = lexmod.functions[expr.func.id]
+            if f.node.returns is not None and "StateFn" in ast.unparse(f.node.returns):
+                names.append(alias)
+    return names
+
+
+def check_progress(model: Model, report: Any, rule: str) -> None:
+    """Termination of `Lexer.run`: the scan is a loop `state = state(lexer)`; it ends when a state returns None.
+
+    Every step (one path through one generic iteration of a state, from an arbitrary position `pos <= len(query)`)
+    either stops the scan (returns None / raises), or provably moves `pos` forward by at least one character
+    (octagon entailment; the length of a match of a pattern that cannot match the empty string is >= 1), or is a
+    *zero-progress* step.  Zero-progress steps leave the text at the pointer unchanged, so the next state sees the
+    same character: a chain of zero-progress steps is followed while the facts each step establishes about that
+    character (fixed character, excluded characters, end of input) stay consistent.  The scan terminates if no
+    such chain returns to a state it has already been in with the bookkeeping unchanged: the measure is
+    len(query) - pos (A1: a regex match and `query[pos]` lie within the query, so pos never passes the end)."""
+    lexmod = model.module("lex")
+    lci = model.cls("lex.Lexer")
+    run = lci.find_method("run")
+    if run is None:
+        raise AnalysisError("anchor vanished: lex.Lexer.run")
+    loops = [n for n in ast.walk(run.node) if isinstance(n, (ast.While, ast.For))]
+    shape_ok = False
+    if len(loops) == 1 and isinstance(loops[0], ast.While):
+        w = loops[0]
+        names = {n.id for n in ast.walk(w.test) if isinstance(n, ast.Name)}
+        for st in w.body:
+            if isinstance(st, ast.Assign) and len(st.targets) == 1 and isinstance(st.targets[0], ast.Name) and st.targets[0].id in names:
+                v = st.value
+                if isinstance(v, ast.Call) and isinstance(v.func, ast.Name) and v.func.id == st.targets[0].id and len(v.args) == 1 and isinstance(v.args[0], ast.Name) and v.args[0].id == "self":
+                    shape_ok = len(w.body) == 1
+    if not shape_ok:
+        report.undecided(rule, run.qualname, "progress: Lexer.run is not the loop `while state is not None: state = state(self)`")
+        return
+    report.ok(rule, run.qualname, "progress:run-loop-shape")
+    states = lexer_state_names(model)
+    if len(states) < 6:
+        raise AnalysisError(f"progress: only {len(states)} lexer states found ({states}); the inventory is broken")
+    table: Dict[Tuple[str, str], List[Step]] = {}
+    for st in states:
+        for cfg, kw in PROGRESS_CONFIGS:
+            try:
+                table[(st, cfg)] = lexer_iteration(model, st, **kw)
+            except Unsupported as err:
+                report.undecided(rule, f"lex.{st}", f"progress:{cfg}: {err}")
+                return
+
+    def stops(s: Step) -> bool:
+        return bool(s.raised or s.error or s.next_state is None)
+
+    # invariant pos <= len(query): a step must not move the pointer beyond the end (checked where it is linear)
+    n_steps = 0
+    zero: Dict[Tuple[str, str], List[Step]] = {}
+    for (st, cfg), steps in table.items():
+        for s in steps:
+            n_steps += 1
+            if stops(s) or s.progress:
+                continue
+            if s.next_state not in states:
+                report.undecided(rule, f"lex.{st}", f"progress:{cfg}: a step hands over to {s.next_state!r}, which is not a known state function")
+                return
+            if s.consumed not in (0, None):
+                # pos changed by an amount that is not provably >= 1 (possibly backwards)
+                report.fail(rule, f"lex.{st}", f"progress:{st}:moves-by:{s.consumed}", f"a path through {st} ({cfg}) continues with {s.next_state} after moving the pointer by {s.consumed}, which is not provably forward: the scan need not terminate; step = {s.show()}")
+                continue
+            zero.setdefault((st, cfg), []).append(s)
+
+    def facts(s: Step) -> Tuple[Optional[str], frozenset, Optional[bool]]:
+        return (s.prefix[0] if s.prefix else None, frozenset(s.excluded.get(0, ())), s.at_end)
+
+    def merge(a: Any, b: Any) -> Any:
+        """Conjunction of two fact sets about the character at the pointer; None if contradictory."""
+        ch = a[0] or b[0]
+        if a[0] and b[0] and a[0] != b[0]:
+            return None
+        ex = a[1] | b[1]
+        if ch and ch in ex:
+            return None
+        end = a[2] if a[2] is not None else b[2]
+        if a[2] is not None and b[2] is not None and a[2] != b[2]:
+            return None
+        if end and ch:
+            return None
+        return (ch, ex, end)
+
+    cycles: List[str] = []
+    chains = 0
+    longest = 0
+
+    def follow(st: str, cfg: str, known: Any, seen: Tuple[str, ...], depth_delta: int) -> None:
+        nonlocal chains, longest
+        longest = max(longest, len(seen))
+        for s in zero.get((st, cfg), []):
+            f = merge(known, facts(s))
+            if f is None:
+                continue
+            chains += 1
+            nxt = s.next_state
+            dd = depth_delta + (s.filter_depth_delta or 0)
+            if nxt in seen or nxt == st:
+                if dd == 0:
+                    cycles.append(" -> ".join(seen + (st, nxt)) + f" at a character with {('fixed ' + repr(f[0])) if f[0] else ('end of input' if f[2] else 'excluded ' + repr(sorted(f[1])))}")
+                continue
+            # the configuration of the next state: keep the caller's (bookkeeping changes only shrink the filter depth)
+            follow(nxt, cfg, f, seen + (st,), dd)
+
+    for (st, cfg) in list(zero):
+        follow(st, cfg, (None, frozenset(), None), (), 0)
+    for c in sorted(set(cycles)):
+        report.fail(rule, "lex.Lexer.run", f"progress:zero-progress-cycle:{c.split(' at ')[0]}", f"the lexer can move through the states {c} without consuming a character and without changing its bookkeeping: the scan does not terminate on such input")
+    if not cycles:
+        report.ok(rule, "lex.Lexer.run", "progress:no-zero-progress-cycle", detail={"states": len(states), "steps": n_steps, "zero_progress_steps": sum(len(v) for v in zero.values()), "chains_followed": chains, "longest_chain": longest})
+    for st in states:
+        report.touched(f"lex.{st}")
